@@ -3,6 +3,8 @@
   Property theorems only (lexical core; the parser-level statements are in progress, see DESIGN.md §6).
 -/
 import WrapModel.Model.Lex
+import WrapModel.Model.Parse
+import WrapModel.Lemmas.AgreeLemmas
 
 namespace WrapModel.Props.C12
 open WrapModel.Lex
@@ -64,5 +66,77 @@ theorem C12_line_comment_continuation (rest : Src) :
 
 /-- non-vacuity: comment bodies with braces, semicolons, quotes and keywords are skipped -/
 example : skipGap "  /* class X { }; \" */ // namespace y {\n\t foo".toList = "foo".toList := by decide
+
+end WrapModel.Props.C12
+
+/-! ### layout invariance of *every* parser program (generic theorem) -/
+
+namespace WrapModel.Props.C12
+open WrapModel WrapModel.Lex WrapModel.Tok
+
+/-- C12, generic form.  Take ANY parser program `p` over the token requests, ANY lexeme list `ls`, and ANY two
+    character strings that spell `ls` (any amount of whitespace, line breaks and comments — with arbitrary content —
+    between adjacent lexemes).  If the lexeme-level run is definite (never stuck on a request that does not fit the
+    kind of the next lexeme), both character-level runs end in the same outcome: the same error, or the same value with
+    remainders that spell the same remaining lexemes. -/
+theorem C12_layout_any_parser (p : P α) {ls : List Lexeme} {s s' : Src} (h : Spells ls s) (h' : Spells ls s') :
+    (∀ a ls', runL p ls = .ok a ls' →
+        (∃ r, p.run s = .ok (a, r) ∧ Spells ls' r) ∧ (∃ r', p.run s' = .ok (a, r') ∧ Spells ls' r')) ∧
+    (∀ e, runL p ls = .err e → p.run s = .error e ∧ p.run s' = .error e) := by
+  obtain ⟨ok1, er1⟩ := lift p h
+  obtain ⟨ok2, er2⟩ := lift p h'
+  exact ⟨fun a ls' hr => ⟨ok1 a ls' hr, ok2 a ls' hr⟩, fun e hr => ⟨er1 e hr, er2 e hr⟩⟩
+
+/-- C12 for the interface parser: two layouts of the same lexemes yield the same parse tree (or the same rejection),
+    for every amount of fuel `n` -/
+theorem C12_layout (n : Nat) {ls : List Lexeme} {s s' : Src} (h : Spells ls s) (h' : Spells ls s') :
+    (∀ m ls', runL (Parse.pmodule n) ls = .ok m ls' →
+        (∃ r, (Parse.pmodule n).run s = .ok (m, r)) ∧ (∃ r', (Parse.pmodule n).run s' = .ok (m, r'))) ∧
+    (∀ e, runL (Parse.pmodule n) ls = .err e → (Parse.pmodule n).run s = .error e ∧ (Parse.pmodule n).run s' = .error e) := by
+  obtain ⟨hok, herr⟩ := C12_layout_any_parser (Parse.pmodule n) h h'
+  refine ⟨fun m ls' hr => ?_, herr⟩
+  obtain ⟨⟨r, h1, _⟩, ⟨r', h2, _⟩⟩ := hok m ls' hr
+  exact ⟨⟨r, h1⟩, ⟨r', h2⟩⟩
+
+/-! non-vacuity: a concrete lexeme list, two concrete spellings (one with comments containing braces, semicolons,
+    quotes and keywords), and a definite lexeme-level run -/
+
+def exLexemes : List Lexeme := [.word "class", .word "A", .sym "{", .sym "}", .sym ";"]
+
+def isOkEmptyClass : Outcome Module → Bool
+  | .ok [.cls c] [] => c.name == "A" && c.members.isEmpty
+  | _ => false
+
+example : isOkEmptyClass (runL (Parse.pmodule 20) exLexemes) = true := by decide
+
+theorem afterWord_of_head {c : Char} {t : Src} (h : isKwChar c = false) : AfterWord (c :: t) := by
+  intro c' t' he; cases he; exact h
+
+theorem wordLike_alpha {c : Char} {t : Src} (h1 : isWordStart c = true) (h2 : ∀ d ∈ c :: t, isWordChar d = true) :
+    isWordLike (c :: t) := ⟨by simp, Or.inl ⟨c, t, rfl, h1, h2⟩⟩
+
+example : Spells exLexemes "class A{};".toList := by
+  have e : "class A{};".toList = [] ++ "class".toList ++ ([' '] ++ "A".toList ++ ([] ++ "{".toList ++ ([] ++ "}".toList ++ ([] ++ ";".toList ++ [])))) := by decide
+  rw [e]
+  refine Spells.cons [] (.word "class") _ _ Gap.nil (by intro _ _ _ h; cases h) ⟨wordLike_alpha (by decide) (by decide), afterWord_of_head (by decide)⟩ ?_
+  refine Spells.cons [' '] (.word "A") _ _ (Gap.ws ' ' [] (by decide) Gap.nil) (by intro _ _ _ h; cases h) ⟨wordLike_alpha (by decide) (by decide), afterWord_of_head (by decide)⟩ ?_
+  refine Spells.cons [] (.sym "{") _ _ Gap.nil (by intro _ _ _ h; cases h) ⟨by decide, fun h => absurd h (by decide)⟩ ?_
+  refine Spells.cons [] (.sym "}") _ _ Gap.nil (by intro _ _ _ h; cases h) ⟨by decide, fun h => absurd h (by decide)⟩ ?_
+  refine Spells.cons [] (.sym ";") _ _ Gap.nil (by intro _ _ _ h; cases h) ⟨by decide, fun h => absurd h (by decide)⟩ ?_
+  exact Spells.nil [] Gap.nil
+
+example : Spells exLexemes "class/*};\"*/A //class B {\n{ } ;\n".toList := by
+  have e : "class/*};\"*/A //class B {\n{ } ;\n".toList =
+      [] ++ "class".toList ++ (('/' :: '*' :: ("};\"".toList ++ '*' :: '/' :: [])) ++ "A".toList ++
+        ((' ' :: '/' :: '/' :: ("class B {".toList ++ '\n' :: [])) ++ "{".toList ++ ([' '] ++ "}".toList ++ ([' '] ++ ";".toList ++ ['\n'])))) := by decide
+  rw [e]
+  refine Spells.cons [] (.word "class") _ _ Gap.nil (by intro _ _ _ h; cases h) ⟨wordLike_alpha (by decide) (by decide), afterWord_of_head (by decide)⟩ ?_
+  refine Spells.cons _ (.word "A") _ _ (Gap.block "};\"".toList [] (by decide) Gap.nil) (by intro _ _ _ h; cases h)
+    ⟨wordLike_alpha (by decide) (by decide), afterWord_of_head (by decide)⟩ ?_
+  refine Spells.cons _ (.sym "{") _ _ (Gap.ws ' ' _ (by decide) (Gap.line "class B {".toList [] (by decide) (by decide) Gap.nil))
+    (by intro _ _ _ h; cases h) ⟨by decide, fun h => absurd h (by decide)⟩ ?_
+  refine Spells.cons [' '] (.sym "}") _ _ (Gap.ws ' ' [] (by decide) Gap.nil) (by intro _ _ _ h; cases h) ⟨by decide, fun h => absurd h (by decide)⟩ ?_
+  refine Spells.cons [' '] (.sym ";") _ _ (Gap.ws ' ' [] (by decide) Gap.nil) (by intro _ _ _ h; cases h) ⟨by decide, fun h => absurd h (by decide)⟩ ?_
+  exact Spells.nil ['\n'] (Gap.ws '\n' [] (by decide) Gap.nil)
 
 end WrapModel.Props.C12
